@@ -186,3 +186,42 @@ Proof.
   intros HP. unfold opes_kernel. cbn [comp_dist2]. rewrite (per_period P kc x n m HP).
   destruct (wrap_dist2_both c0 c0 P kc x HP) as [E _]. rewrite E. split; reflexivity.
 Qed.
+
+(* ------------------------------------------------------------------ on the manifolds: along every (tangent) curve through the
+   value the derivative of the restraint energy is minus <restraint force, velocity> *)
+Lemma v3dot_scale_l s (g e : vec3 (T:=R)) : v3dot Rops (v3scale Rops s g) e = s * v3dot Rops g e.
+Proof. destruct g as [[a b] c], e as [[x y] z]. unfold v3dot, v3scale; cbn. ring. Qed.
+Lemma qdot_scale_l s (g e : quat (T:=R)) : qdot Rops (qscale Rops s g) e = s * qdot Rops g e.
+Proof. destruct g as [[[a b] c] d], e as [[[x y] z] u]. unfold qdot, qscale; cbn. ring. Qed.
+
+Lemma hr_unit_force_curve k w (x y z : R -> R) (ex ey ez : R) (c : vec3 (T:=R)) :
+  is_derive x 0 ex -> is_derive y 0 ey -> is_derive z 0 ez -> uv_nonsingular (x 0, y 0, z 0) c ->
+  is_derive (fun t => 1 / 2 * k / (w * w) * uv_dist2 Rops (x t, y t, z t) c) 0
+            (- v3dot Rops (v3scale Rops (- (1 / 2) * k / (w * w)) (uv_grad Rops (x 0, y 0, z 0) c)) (ex, ey, ez)).
+Proof.
+  intros Hx Hy Hz Hns.
+  pose proof (is_derive_scal (fun t => uv_dist2 Rops (x t, y t, z t) c) 0 (1 / 2 * k / (w * w)) _
+                (uv_grad_curve_derive x y z ex ey ez c Hx Hy Hz Hns)) as H.
+  rewrite v3dot_scale_l.
+  match type of H with is_derive _ _ ?l => match goal with |- is_derive _ _ ?r => replace r with l by (unfold Rdiv; ring) end end.
+  exact H.
+Qed.
+Lemma hr_quat_force_curve k w (a0 a1 a2 a3 : R -> R) (e0 e1 e2 e3 : R) (c : quat (T:=R)) :
+  is_derive a0 0 e0 -> is_derive a1 0 e1 -> is_derive a2 0 e2 -> is_derive a3 0 e3 ->
+  qdot Rops (a0 0, a1 0, a2 0, a3 0) (e0, e1, e2, e3) = 0 -> q_nonsingular (a0 0, a1 0, a2 0, a3 0) c ->
+  is_derive (fun t => 1 / 2 * k / (w * w) * q_dist2 Rops PI (a0 t, a1 t, a2 t, a3 t) c) 0
+            (- qdot Rops (qscale Rops (- (1 / 2) * k / (w * w)) (q_grad Rops PI (a0 0, a1 0, a2 0, a3 0) c)) (e0, e1, e2, e3)).
+Proof.
+  intros H0 H1 H2 H3 Ht Hns.
+  pose proof (is_derive_scal (fun t => q_dist2 Rops PI (a0 t, a1 t, a2 t, a3 t) c) 0 (1 / 2 * k / (w * w)) _
+                (q_grad_curve_derive a0 a1 a2 a3 e0 e1 e2 e3 c H0 H1 H2 H3 Ht Hns)) as H.
+  rewrite qdot_scale_l.
+  match type of H with is_derive _ _ ?l => match goal with |- is_derive _ _ ?r => replace r with l by (unfold Rdiv; ring) end end.
+  exact H.
+Qed.
+Lemma hr_manifold_unfold k w a b q c :
+  hr_energy Rops PI k w KUnit (V3 a) (V3 b) = Some (1 / 2 * k / (w * w) * uv_dist2 Rops a b) /\
+  hr_force Rops PI k w KUnit (V3 a) (V3 b) = Some (V3 (v3scale Rops (- (1 / 2) * k / (w * w)) (uv_grad Rops a b))) /\
+  hr_energy Rops PI k w KQuat (VQ q) (VQ c) = Some (1 / 2 * k / (w * w) * q_dist2 Rops PI q c) /\
+  hr_force Rops PI k w KQuat (VQ q) (VQ c) = Some (VQ (qscale Rops (- (1 / 2) * k / (w * w)) (q_grad Rops PI q c))).
+Proof. repeat split. Qed.
